@@ -22,6 +22,9 @@ def run(ctx):
     else:
         mc, mc2 = lib.tlc_parallel([dict(module="keys/KeyTrie", cfg=f"KeyTrie.{tier}.cfg", workers=6 if q else 12, coverage=True, check=False, timeout=3400, heap="8g"),
                                     dict(module="keys/KeyTrie", cfg="KeyTrie.long.cfg", workers=4, coverage=True, check=False, timeout=3400, heap="6g")])
+        # unbounded complement (Apalache): Register keeps the dictionary prefix-free over any key alphabet
+        lib.inductive(ctx, "apalache/KeyMapInd", "KeyMapInd", "NextBad", "Apalache, Gen(4) chords of Gen(4) integer keys",
+                      registered=("Registered (3 registrations)", dict(init="Init", inv="Registered", length=3)))
         if mc2.error or mc2.invariant:
             lib.log(mc2.out[-3000:])
             raise lib.ToolError("KeyTrie.long.cfg failed")
